@@ -44,11 +44,43 @@ import (
 //	           every nil-ness combination of request fields, value-less label terms for every
 //	           operator, unknown operator numbers, bad phase / version strings, bad regexps,
 //	           negative tails, garbage bookmarks, unknown resource types (Corpus: enumerated)
+//	stall=1    (with initcap/maxcap/gap: a small history) both states sit behind a grpcStaller: every
+//	           watch started by `wstart` passes a forwarder that `hold w=` stops and `release w=`
+//	           lets go again — a stalled stream / slow consumer, identically on both sides, while
+//	           writes go on: the inner watch falls behind the history and FAILS; the Errored event
+//	           must come out of the remote watch exactly as out of the direct one
 //	td=0/tad=0 the server is a stub that embeds UnimplementedStateServer for Teardown /
 //	           TeardownAndDestroy: the client's sticky fallback runs
 func init() { Register("grpc", func() Engine { return &grpcEng{} }) }
 
-type grpcEng struct{}
+type grpcEng struct {
+	stats map[string]int
+}
+
+func (e *grpcEng) count(k string, n int) {
+	if e.stats == nil {
+		e.stats = map[string]int{}
+	}
+
+	e.stats[k] += n
+}
+
+// Notes reports what the executed cases exercised (evidence only).
+func (e *grpcEng) Notes() []string {
+	ks := make([]string, 0, len(e.stats))
+	for k := range e.stats {
+		ks = append(ks, k)
+	}
+
+	sort.Strings(ks)
+
+	parts := make([]string, 0, len(ks))
+	for _, k := range ks {
+		parts = append(parts, fmt.Sprintf("%s=%d", k, e.stats[k]))
+	}
+
+	return []string{"grpc exercised: " + strings.Join(parts, " ")}
+}
 
 func (*grpcEng) Name() string { return "grpc" }
 
@@ -61,13 +93,24 @@ func (*grpcEng) Cases(thorough bool) int {
 }
 
 func (*grpcEng) Rule() string {
-	return "lock-step cases: random store ops with all options (owners, expected phases, stale versions, finalizers), List with label queries (7 operators, inverted, 0-2 values) and ID regexps, watches (single/kind/aggregated; bootstrap, bootstrap bookmark, tail, resumed and garbage bookmarks, label selector), Teardown, TeardownAndDestroy blocked on finalizers that another actor removes, against the full server and against a stub without the Teardown RPCs (sticky fallback); raw cases (corpus): the enumerated malformed space. non-trivial = lock-step case with an error result, a received watch event and a helper call, or raw case with an error status; distinct by hash of the op lines"
+	return "lock-step cases: random store ops with all options (owners, expected phases, stale versions, finalizers), List with label queries (7 operators, inverted, 0-2 values) and ID regexps, watches (single/kind/aggregated, single ones also on the EMPTY resource ID; bootstrap, bootstrap bookmark, tail, resumed and garbage bookmarks, label selector), Teardown, TeardownAndDestroy blocked on finalizers that another actor removes, against the full server and against a stub without the Teardown RPCs (sticky fallback); raw cases (corpus): the enumerated malformed space. stall cases (1 in 5): history of 2..4 events, every watch behind a forwarder that is held and released while writes go on (a stalled stream on both sides alike): the inner watch overruns and its Errored must come out of the remote watch as out of the direct one; non-trivial = stall case with an Errored received, lock-step case with an error result, a received watch event and a helper call, or raw case with an error status; distinct by hash of the op lines"
 }
 
 func (*grpcEng) NonTrivial(c Case, out []string) bool {
 	if strings.Contains(c.Header, "mode=raw") {
 		for _, o := range out {
 			if strings.Contains(o, "iserr=true") {
+				return true
+			}
+		}
+
+		return false
+	}
+
+	if strings.Contains(c.Header, "stall=1") {
+		// a held watch that failed: an Errored event came out of the direct watch
+		for i, o := range out {
+			if opName(c.Ops[i]) == "recv" && strings.Contains(o, "errored") {
 				return true
 			}
 		}
@@ -138,7 +181,127 @@ func (s *grpcStub) TeardownAndDestroy(ctx context.Context, r *v1alpha1.TeardownA
 	return s.UnimplementedStateServer.TeardownAndDestroy(ctx, r)
 }
 
+// grpcStaller is a CoreState whose watches — those started while `next` names a harness watch —
+// deliver through ONE forwarder goroutine each that stops while the watch is held: it then holds
+// the one event it has taken, the state's own watch goroutine blocks on the next one.
+type grpcStaller struct {
+	state.CoreState
+
+	gates map[string]chan struct{} // watch -> open channel while held (closed / absent = not held)
+	next  string
+	mu    sync.Mutex
+}
+
+func (st *grpcStaller) hold(w string) {
+	st.mu.Lock()
+	defer st.mu.Unlock()
+
+	if st.gates[w] == nil {
+		st.gates[w] = make(chan struct{})
+	}
+}
+
+func (st *grpcStaller) release(w string) {
+	st.mu.Lock()
+	defer st.mu.Unlock()
+
+	if g := st.gates[w]; g != nil {
+		close(g)
+		delete(st.gates, w)
+	}
+}
+
+func (st *grpcStaller) gate(w string) chan struct{} {
+	st.mu.Lock()
+	defer st.mu.Unlock()
+
+	return st.gates[w]
+}
+
+func grpcStallForward[T any](ctx context.Context, st *grpcStaller, w string, in <-chan T, out chan<- T) {
+	for {
+		var ev T
+
+		select {
+		case <-ctx.Done():
+			return
+		case ev = <-in:
+		}
+
+		for g := st.gate(w); g != nil; g = st.gate(w) {
+			select {
+			case <-g:
+			case <-ctx.Done():
+				return
+			}
+		}
+
+		select {
+		case out <- ev:
+		case <-ctx.Done():
+			return
+		}
+	}
+}
+
+func (st *grpcStaller) tracked() string {
+	st.mu.Lock()
+	defer st.mu.Unlock()
+
+	return st.next
+}
+
+func (st *grpcStaller) Watch(ctx context.Context, ptr resource.Pointer, ch chan<- state.Event, opts ...state.WatchOption) error {
+	w := st.tracked()
+	if w == "" {
+		return st.CoreState.Watch(ctx, ptr, ch, opts...)
+	}
+
+	in := make(chan state.Event)
+	if err := st.CoreState.Watch(ctx, ptr, in, opts...); err != nil {
+		return err
+	}
+
+	go grpcStallForward(ctx, st, w, in, ch)
+
+	return nil
+}
+
+func (st *grpcStaller) WatchKind(ctx context.Context, kind resource.Kind, ch chan<- state.Event, opts ...state.WatchKindOption) error {
+	w := st.tracked()
+	if w == "" {
+		return st.CoreState.WatchKind(ctx, kind, ch, opts...)
+	}
+
+	in := make(chan state.Event)
+	if err := st.CoreState.WatchKind(ctx, kind, in, opts...); err != nil {
+		return err
+	}
+
+	go grpcStallForward(ctx, st, w, in, ch)
+
+	return nil
+}
+
+func (st *grpcStaller) WatchKindAggregated(ctx context.Context, kind resource.Kind, ch chan<- []state.Event, opts ...state.WatchKindOption) error {
+	w := st.tracked()
+	if w == "" {
+		return st.CoreState.WatchKindAggregated(ctx, kind, ch, opts...)
+	}
+
+	in := make(chan []state.Event)
+	if err := st.CoreState.WatchKindAggregated(ctx, kind, in, opts...); err != nil {
+		return err
+	}
+
+	go grpcStallForward(ctx, st, w, in, ch)
+
+	return nil
+}
+
 type grpcSites struct {
+	stallD   *grpcStaller
+	stallR   *grpcStaller
 	ctx      context.Context //nolint:containedctx
 	coreD    state.CoreState // behind the direct handle
 	coreR    state.CoreState // behind the server
@@ -152,18 +315,61 @@ type grpcSites struct {
 	stop     func()
 }
 
-func newGrpcSites(t *testing.T, td, tad bool) *grpcSites {
+// grpcRegisterTypes: so that the server and the client unmarshal T1/T2 into the harness' resource
+// type; any other type stays a protobuf.Resource ("unknown resource type").
+func grpcRegisterTypes() {
 	grpcRegisterOnce.Do(func() {
-		// so that the server and the client unmarshal T1/T2 into the harness' resource type;
-		// any other type stays a protobuf.Resource ("unknown resource type")
 		_ = protobuf.RegisterResource("T1", &TRes{})
 		_ = protobuf.RegisterResource("T2", &TRes{})
 	})
+}
+
+// grpcFront puts the REAL server.State and client.Adapter, connected by grpc-go over bufconn, in
+// front of core; must be called inside the synctest bubble. stop closes connection and server.
+func grpcFront(t *testing.T, core state.CoreState, opts ...client.AdapterOption) (state.CoreState, func()) {
+	grpcRegisterTypes()
+
+	srv := grpc.NewServer()
+	v1alpha1.RegisterStateServer(srv, server.NewState(core))
+
+	lis := bufconn.Listen(1 << 20)
+
+	go srv.Serve(lis) //nolint:errcheck
+
+	conn, err := grpc.NewClient("passthrough:///bufnet",
+		grpc.WithContextDialer(func(ctx context.Context, _ string) (net.Conn, error) { return lis.DialContext(ctx) }),
+		grpc.WithTransportCredentials(insecure.NewCredentials()))
+	if err != nil {
+		t.Fatal(err)
+	}
+
+	return client.NewAdapter(v1alpha1.NewStateClient(conn), opts...), func() {
+		conn.Close() //nolint:errcheck
+		srv.Stop()
+	}
+}
+
+func newGrpcSites(t *testing.T, td, tad bool, h Args) *grpcSites {
+	grpcRegisterTypes()
 
 	ctx, cancel := context.WithCancel(context.Background())
 	s := &grpcSites{ctx: ctx}
 	s.coreD = namespaced.NewState(inmem.Build)
 	s.coreR = namespaced.NewState(inmem.Build)
+
+	if h["stall"] == "1" {
+		build := func(ns resource.Namespace) state.CoreState {
+			return inmem.NewStateWithOptions(
+				inmem.WithHistoryInitialCapacity(h.Int("initcap")),
+				inmem.WithHistoryMaxCapacity(h.Int("maxcap")),
+				inmem.WithHistoryGap(h.Int("gap")),
+			)(ns)
+		}
+
+		s.stallD = &grpcStaller{CoreState: namespaced.NewState(build), gates: map[string]chan struct{}{}}
+		s.stallR = &grpcStaller{CoreState: namespaced.NewState(build), gates: map[string]chan struct{}{}}
+		s.coreD, s.coreR = s.stallD, s.stallR
+	}
 	s.direct = state.WrapCore(s.coreD)
 
 	count := func(method string) {
@@ -666,7 +872,7 @@ func (e *grpcEng) Exec(t *testing.T, c Case) []string {
 	ck := cookie(t)
 
 	synctest.Test(t, func(t *testing.T) {
-		s := newGrpcSites(t, h["td"] != "0", h["tad"] != "0")
+		s := newGrpcSites(t, h["td"] != "0", h["tad"] != "0", h)
 		defer func() {
 			s.stop()
 			synctest.Wait()
@@ -718,13 +924,54 @@ func (e *grpcEng) Exec(t *testing.T, c Case) []string {
 					r := remote(func() string { return grpcEnvMod(s.ctx, s.adapter, a) })
 
 					return fmt.Sprintf("direct=%s remote=%s", d, r)
+				case "hold", "release":
+					for _, st := range []*grpcStaller{s.stallD, s.stallR} {
+						if st == nil {
+							continue
+						}
+
+						if op == "hold" {
+							st.hold(a["w"])
+						} else {
+							st.release(a["w"])
+						}
+					}
+
+					return "direct=ok remote=ok"
 				case "wstart":
 					p := &pair{}
 					ds, rs := "ok", "ok"
 
 					var err error
 
-					if p.d, err = startWatch(s.ctx, s.coreD, ck, a); err != nil {
+					for _, st := range []*grpcStaller{s.stallD, s.stallR} {
+						if st != nil {
+							st.mu.Lock()
+							st.next = a["w"]
+							st.mu.Unlock()
+
+							defer func() {
+								st.mu.Lock()
+								st.next = ""
+								st.mu.Unlock()
+							}()
+						}
+					}
+
+					da := a
+
+					if s.stallD != nil {
+						// nothing but a HELD forwarder may make a watch lag: the direct subscriber's channel is
+						// as deep as the gRPC pipeline of the remote one (any subset of the ops is then a fair case)
+						da = Args{}
+						for k, v := range a {
+							da[k] = v
+						}
+
+						da["buf"] = "8192"
+					}
+
+					if p.d, err = startWatch(s.ctx, s.coreD, ck, da); err != nil {
 						ds = "err~" + strings.TrimPrefix(watchStartErr(err), "err class=")
 					}
 
@@ -797,13 +1044,31 @@ func (e *grpcEng) Exec(t *testing.T, c Case) []string {
 		}
 	})
 
+
+	if h["stall"] == "1" {
+		e.count("stall_cases", 1)
+	}
+
+	for k, o := range out {
+		op, a := ParseLine(c.Ops[k])
+
+		switch {
+		case op == "recv" && strings.Count(o, "errored") >= 2:
+			e.count("watch_failures_seen_on_both_sides", 1)
+		case op == "wstart" && a["kind"] == "single" && a["id"] == "" && o == "direct=ok remote=ok":
+			e.count("single_watches_on_the_empty_id", 1)
+		}
+	}
+
 	return out
 }
 
 // ---- generators --------------------------------------------------------------------------
 
 var (
-	grpcIDs    = []string{"a", "b", "c"}
+	// the ID universe of every operation and watch target; the EMPTY string is a legal resource ID
+	// (an `optional string id` on the wire: present-and-empty must not be taken for absent)
+	grpcIDs    = []string{"a", "b", "c", ""}
 	grpcRegexp = []string{"^a", "b$", "a|c", ".", "^$", "[^a]", "", "^[a-c]$"}
 	grpcOps    = []resource.LabelOp{
 		resource.LabelOpExists, resource.LabelOpEqual, resource.LabelOpIn, resource.LabelOpLT,
@@ -815,7 +1080,7 @@ func grpcIDBits(re string) string {
 	rx := regexp.MustCompile(re)
 	parts := make([]string, 0, 4)
 
-	for _, id := range uID {
+	for _, id := range append(append([]string{}, uID...), "") {
 		b := "0"
 		if rx.MatchString(id) {
 			b = "1"
@@ -858,8 +1123,125 @@ func grpcQueries(r *Rand) string {
 	return encQueries(qs)
 }
 
+// genStall: watches over a SMALL history with stalled deliveries. A watch that is not held never
+// lags (the direct subscriber's channel is made as deep as the gRPC pipeline); a held watch lags on
+// both sides alike, overruns the history when enough is written meanwhile, and fails once released.
+func (e *grpcEng) genStall(r *Rand, thorough bool, idx int) Case {
+	hcap := 2 + r.Intn(3)
+	c := Case{Header: fmt.Sprintf("# engine=grpc mode=lock td=1 tad=1 stall=1 initcap=%d maxcap=%d gap=0 case=%d", hcap, hcap, idx)}
+	t := 0
+
+	type sw struct {
+		w    int
+		held bool
+	}
+
+	var live []*sw
+
+	nextW := 1
+	ids := []string{"a", "b", ""}
+	exists := map[string]bool{}
+
+	drain := func() {
+		for _, l := range live {
+			if !l.held {
+				c.Ops = append(c.Ops, fmt.Sprintf("recv t=%d w=%d", t, l.w))
+			}
+		}
+	}
+
+	write := func() {
+		id := Pick(r, ids)
+
+		switch {
+		case !exists[id]:
+			c.Ops = append(c.Ops, fmt.Sprintf("create t=%d ns=n1 typ=T1 id=%s ver=undefined owner= phase=running fins= labels=%s c=%d u=%d spec=s%d as=",
+				t, id, Pick(r, []string{"", "k1:v1"}), t, t, r.Intn(3)))
+			exists[id] = true
+		case r.Chance(1, 6):
+			c.Ops = append(c.Ops, fmt.Sprintf("destroy t=%d ns=n1 typ=T1 id=%s as=", t, id))
+			exists[id] = false
+		default:
+			c.Ops = append(c.Ops, fmt.Sprintf("envmod t=%d ns=n1 typ=T1 id=%s mut=%s", t, id, Pick(r, []string{"setSpec:s7", "setSpec:s8", "setLabel:k1:v1", "setLabel:k1:v2"})))
+		}
+
+		drain()
+	}
+
+	n := 30
+	if thorough {
+		n = 60
+	}
+
+	for i := 0; i < n; i++ {
+		t++
+
+		switch x := r.Intn(100); {
+		case i < 2 || x < 45:
+			write()
+		case x < 60 && len(live) < 3:
+			wk := Pick(r, []string{"single", "single", "kind", "agg"})
+			op := fmt.Sprintf("wstart t=%d w=%d ns=n1 typ=T1 kind=%s", t, nextW, wk)
+
+			if wk == "single" {
+				op += " id=" + Pick(r, ids)
+			} else if r.Chance(1, 3) {
+				op += " boot=1"
+			}
+
+			op += fmt.Sprintf(" buf=%d", Pick(r, []int{0, 1, 2}))
+			c.Ops = append(c.Ops, op)
+			live = append(live, &sw{w: nextW})
+			nextW++
+
+			drain()
+		case x < 80 && len(live) > 0:
+			l := Pick(r, live)
+			if l.held {
+				l.held = false
+				c.Ops = append(c.Ops, fmt.Sprintf("release t=%d w=%d", t, l.w), fmt.Sprintf("recv t=%d w=%d", t, l.w))
+			} else {
+				l.held = true
+				c.Ops = append(c.Ops, fmt.Sprintf("recv t=%d w=%d", t, l.w), fmt.Sprintf("hold t=%d w=%d", t, l.w))
+
+				// the writers run on while this stream stands still
+				for k := r.Intn(2 * hcap); k > 0; k-- {
+					t++
+					write()
+				}
+			}
+		case x < 84 && len(live) > 0:
+			j := r.Intn(len(live))
+			if !live[j].held {
+				c.Ops = append(c.Ops, fmt.Sprintf("wstop t=%d w=%d", t, live[j].w))
+				live = append(live[:j], live[j+1:]...)
+			}
+		default:
+			c.Ops = append(c.Ops, fmt.Sprintf("get t=%d ns=n1 typ=T1 id=%s", t, Pick(r, ids)))
+		}
+	}
+
+	t++
+
+	for _, l := range live {
+		if l.held {
+			c.Ops = append(c.Ops, fmt.Sprintf("release t=%d w=%d", t, l.w))
+		}
+
+		c.Ops = append(c.Ops, fmt.Sprintf("recv t=%d w=%d", t, l.w))
+	}
+
+	c.Ops = append(c.Ops, fmt.Sprintf("list t=%d ns=n1 typ=T1 q=", t))
+
+	return c
+}
+
 func (e *grpcEng) Gen(r *Rand, thorough bool, idx int) Case {
 	r = NewRand(r.Next() ^ (uint64(idx)+1)*0xA24BAED4963EE407)
+
+	if idx%5 == 4 {
+		return e.genStall(r, thorough, idx)
+	}
 
 	td, tad := 1, 1
 
